@@ -23,7 +23,11 @@ def _cases(ctx, spec, cfg, module, timeout, workers=None):
 
 
 def _marks(out, marker):
-    return [(int(a), b) for a, b in re.findall(r'<<"%s", (\d+), "([^"]*)">>' % marker, out)]
+    """<<marker, line, clause>> tuples printed by the trace specs (whitespace-robust, with a completeness guard)."""
+    ts = vlib.tuples(out, marker)
+    if len(ts) != out.count('"%s"' % marker) or any(len(t) != 2 or not isinstance(t[0], int) for t in ts):
+        raise vlib.Infra("could not parse every %s tuple printed by TLC (%d parsed, %d printed)" % (marker, len(ts), out.count('"%s"' % marker)))
+    return [(t[0], t[1]) for t in ts]
 
 
 def _judge(ctx, spec, trace, nlines, abs_cfg, conf_cfg, timeout, conf_module=None):
